@@ -90,6 +90,14 @@ def wCfgOk : Cfg :=
                         ⟨.proc "B" "a", wE⟩, ⟨.proc "C" "a", wE⟩]
                 res := [⟨wS, wE⟩] }] }
 
+/-- `corpus/C05/regress-F05e.ops`: `G` answers the request; the flow's filter has `status_code: [429, 500]` -/
+def wCfgStatus : Cfg :=
+  { pdefs := [wPA, wPE]
+    flows := [{ name := "f1", status := [429, 500]
+                procs := [⟨"G", "PE", []⟩, ⟨"P", "PA", []⟩]
+                req := [⟨wS, .proc "G" ""⟩, ⟨.proc "G" "a", wE⟩]
+                res := [⟨wS, .proc "P" ""⟩, ⟨.proc "G" "e", .proc "P" ""⟩, ⟨.proc "P" "a", wE⟩] }] }
+
 def isAccept : LoadRes → Bool
   | .accept _ => true
   | _ => false
